@@ -155,8 +155,12 @@ def get_files(
             dirs[:] = []
             continue
 
-        # Preserve both the actual resolved path and the directory name
-        dirs_set = dict(((base_resolved.joinpath(d).resolve(), d) for d in dirs))
+        # Preserve both the actual resolved path and the directory name. Two names may lead
+        # to one directory (a symbolic link beside it): go by name, not by the order in which
+        # the operating system happens to list them, so that every build picks the same one
+        dirs_set = dict(
+            ((base_resolved.joinpath(d).resolve(), d) for d in sorted(dirs))
+        )
 
         nested_set = set()
         for d_path, d_name in dirs_set.items():
